@@ -11,6 +11,7 @@ import PyYetiVerif.Props.C01StaticC
 import PyYetiVerif.Props.C01PreEig
 import PyYetiVerif.Props.C01Cuts
 import PyYetiVerif.Props.C01CplxUnc
+import PyYetiVerif.Props.C01CplxUncFixed
 #print axioms PyYetiVerif.C01.su_solves_ode_under
 #print axioms PyYetiVerif.C01.su_solves_ode_over
 #print axioms PyYetiVerif.C01.su_solves_ode_crit
@@ -85,3 +86,12 @@ import PyYetiVerif.Props.C01CplxUnc
 #print axioms PyYetiVerif.C01.complex_unc_damped_rb_counterexample
 #print axioms PyYetiVerif.C01.complex_recovery_real_part
 #print axioms PyYetiVerif.C01.complex_dtype_real_system_response_is_real
+#print axioms PyYetiVerif.C01.isSol_unit_mass_scale_damped
+#print axioms PyYetiVerif.C01.complex_unc_rb_exact_fixed
+#print axioms PyYetiVerif.C01.rb_step_unit_mass
+#print axioms PyYetiVerif.C01.runUnc_map_of_step
+#print axioms PyYetiVerif.C01.complex_unc_rb_fixed_is_real_path
+#print axioms PyYetiVerif.C01.complex_unc_rb_fixed_velo_exact
+#print axioms PyYetiVerif.C01.complex_unc_rb_fixed_undamped_unchanged
+#print axioms PyYetiVerif.C01.complex_unc_damped_rb_counterexample_fixed
+#print axioms PyYetiVerif.C01.complex_unc_rb_rows_fixed_spec
